@@ -17,12 +17,15 @@ from ..util import (has_call, find_calls, assigned_value, const_str, unparse, kw
 from .. import mutate as M
 from . import c05
 
+TECHNIQUE = 'static analysis: configuration-specialised CFG of _parse_pred (batch order x kwargs x format) with definite assignment, producer/consumer string-table agreement, forward dataflow for recognition order (identity before look-alike, str before len), sibling agreement of the three batch-order arms'
+
 EXPLANATION = ("Configuration-specialised analysis of SafeLearner._parse_pred: for every (batch order, has_kwargs, format) the "
                "CFG is pruned by constant folding of the string tests (==, [:2], endswith) and the returned action, "
                "probability and kwargs are definitely assigned and a return is reached; strings produced by pred_format/"
                "batch_order equal the strings tested; PMFs are sampled with self._rng = CobaRandom(seed) and the pair of one "
                "choicew call is returned; kwargs are the prediction's last element and reach learner.learn as **kwargs; "
                "the per-row fall-back runs only in the handler of the batched attempt and is validated.")
+EXPLANATION += ' R8: recognition order (identity before look-alike, str before len); R9: kwargs recognised by the documented Mapping type; R10: seeds not tested for truthiness; R11: the three batch-order arms unwrap kwargs alike and the column arm transposes PMFs.'
 
 SAF = "coba/safety.py"
 
